@@ -213,7 +213,7 @@ def _visitor_semantics(F, b, kind):
             asg = {"symbolic": True, "params": {1: SELF, 2: V_}, "cparams": {"SIZE_IN_BYTES": N},
                    "calls": {"core::slice::<impl [T]>::len": slice_len, "TryFrom<&[u8; SIZE_IN_BYTES]>>::try_from": array_parser,
                              "::from_str_bytes": str_parser},
-                   "xcalls": {"TryInto<U>>::try_into": try_into}}
+                   "xcalls": {"TryInto<U>>::try_into": try_into, "for &'a [T; N]>::try_from": try_into}}
             try:
                 got = evalx.run(S, F, paths, asg)
             except evalx.Panics as ex:
